@@ -654,6 +654,25 @@ func em2C06(in emScript) (*emFail, int) {
 		return fail("finalize-frame", fmt.Sprintf("Finalize (%s) changed len/cap/pc/flags/base/labels: before %+v, after %+v", fin.Cls, b2, a2)), ne
 	}
 
+	// ---- Finalize once more: nothing was defined in between, so it succeeds exactly when the first call did (an
+	// unresolved or out-of-range reference stays one), and after a success it has nothing left to change
+	ne++
+	fin2 := emFinalize(a)
+	after2 := emObserve(a)
+	if (fin2.Cls == "ok") != (fin.Cls == "ok") {
+		return fail("finalize-again", fmt.Sprintf("the first Finalize returned %s %q, a second Finalize of the unchanged emitter returned %s %q; %s",
+			fin.Cls, fin.Msg, fin2.Cls, fin2.Msg, ref.describe())), ne
+	}
+	if fin.Cls == "ok" && !emObsEq(after, after2) {
+		return fail("finalize-again", fmt.Sprintf("a second Finalize after a successful one changed the emitter: %+v -> %+v", after, after2)), ne
+	}
+	for i := range before.Bytes {
+		if i < len(after2.Bytes) && !operand[i] && before.Bytes[i] != after2.Bytes[i] {
+			return fail("finalize-frame", fmt.Sprintf("the second Finalize (%s) changed byte %d (address %#06x), not an operand of a label reference, from %02x to %02x; %s",
+				fin2.Cls, i, ref.base+int64(i), before.Bytes[i], after2.Bytes[i], ref.describe())), ne
+		}
+	}
+
 	// ---- a defined label cannot be defined again
 	ne++
 	for i := int64(0); i < emNL; i++ {
